@@ -42,6 +42,7 @@ type Goroutine struct {
 	recvOK   bool
 	runnable bool
 	name     string
+	coroWait bool // waiting in coroswitch (or a coroutine not started yet): not schedulable
 }
 
 type Sched struct {
@@ -118,7 +119,7 @@ func (p *Path) wakeG(g *Goroutine) {
 func (p *Path) candidates() []*Goroutine {
 	var r []*Goroutine
 	for _, g := range p.sched.gs {
-		if g.done {
+		if g.done || g.coroWait {
 			continue
 		}
 		if g.runnable {
@@ -449,4 +450,103 @@ func (p *Path) selectOp(fr *frame, instr *ssa.Select) Value {
 		}
 	}
 	return r
+}
+
+// ------------------------------------------------------------ coroutines
+//
+// runtime.newcoro / runtime.coroswitch (used by util/iter.Pull through
+// linkname): a coroutine is a goroutine that only ever runs while its
+// partner waits, with explicit hand-off; no scheduling decision is involved.
+
+type coro struct {
+	g      *Goroutine
+	resume *Goroutine
+	done   bool
+}
+
+func (p *Path) coroNew(fn Value, self Value) *coro {
+	s := p.sched
+	c := &coro{}
+	g := &Goroutine{id: len(s.gs), wake: make(chan struct{}, 1), name: "coro", coroWait: true}
+	c.g = g
+	s.gs = append(s.gs, g)
+	go func() {
+		<-g.wake
+		defer func() {
+			r := recover()
+			g.done = true
+			c.done = true
+			if s.killed {
+				s.exited <- struct{}{}
+				return
+			}
+			if r != nil {
+				if _, isEnd := r.(goroutineKilled); !isEnd {
+					s.abort = r
+				}
+			}
+			s.exited <- struct{}{}
+			if s.abort != nil {
+				p.wakeG(s.gs[0])
+				return
+			}
+			if c.resume != nil {
+				c.resume.coroWait = false
+				p.wakeG(c.resume)
+			}
+		}()
+		if s.killed {
+			panic(goroutineKilled{})
+		}
+		g.started = true
+		g.coroWait = false
+		p.cur = g
+		p.call(nil, fn, []Value{self})
+	}()
+	return c
+}
+
+func (p *Path) coroSwitch(c *coro) {
+	s := p.sched
+	me := p.cur
+	var target *Goroutine
+	if me == c.g {
+		target = c.resume
+	} else {
+		if c.done {
+			return
+		}
+		c.resume = me
+		target = c.g
+	}
+	if target == nil {
+		panic(engineError{"coroswitch without a partner"})
+	}
+	me.coroWait = true
+	target.coroWait = false
+	p.wakeG(target)
+	<-me.wake
+	if s.killed {
+		panic(goroutineKilled{})
+	}
+	if me.id == 0 && s.abort != nil {
+		panic(s.abort)
+	}
+	me.coroWait = false
+	p.cur = me
+}
+
+func init() {
+	for _, pkg := range []string{regattaMod + "/util/iter", "iter", "runtime"} {
+		pkg := pkg
+		reg(pkg+".newcoro", func(p *Path, _ *frame, a []Value) Value {
+			no := &NativeObj{Kind: "coro"}
+			no.Data = p.coroNew(a[0], no)
+			return no
+		})
+		reg(pkg+".coroswitch", func(p *Path, _ *frame, a []Value) Value {
+			p.coroSwitch(pData[*coro](p, a[0], "coroswitch"))
+			return nil
+		})
+	}
 }
